@@ -10,6 +10,8 @@ correspondence):
   `\uHHHH`, `\xHH`, `\u{H+}`, a backslash pair — never a fragment of an escape;
 * `C16_attrs_shape`: every reducible attribute atom is one complete attribute (leading whitespace,
   name, optional `=value` including its closing quote);
+* `C16_attrs_not_continued`: ... and not a fragment: behind an atom that does not end with a quoted
+  value the file goes on with white space or `>`;
 * `C16_js_exact`: the reducible JS atoms, WITH THEIR BYTE OFFSETS in the file, are exactly the
   characters and escape sequences inside properly terminated strings of the reference
   segmentation `Js.specJs` (find the next quote; if the body behind it has a closing quote its
@@ -29,6 +31,7 @@ import LithiumProofs.SplitAttrs
 import LithiumProofs.SplitAttrsShape
 import LithiumProofs.SplitAttrsTag
 import LithiumProofs.SplitJsSpec
+import LithiumProofs.SplitAttrsNext
 
 namespace Js
 
@@ -159,6 +162,22 @@ attributes and non-reducible text WITHOUT a `>`; and `a` itself is one complete 
 theorem C16_attrs_in_tag (d : Bytes) (s : Load.Split) (h : splitAttrs d = .ok s) :
     AttrsInTag (s.parts.zip s.reducible) :=
   splitAttrs_in_tag d s h
+
+/-- attribute mode: COMPLETE also means NOT CONTINUED.  Behind every reducible atom that does not end with a
+quoted value (`…=q body q`) the next part of the file starts with white space or `>`: an unquoted value
+and a value-less name are never cut short, also not at the end of the data (where the code gives up on
+the tag instead of flagging what it has). -/
+theorem C16_attrs_not_continued (d : Bytes) (s : Load.Split) (h : splitAttrs d = .ok s) :
+    ∀ i a b r, (s.parts.zip s.reducible)[i]? = some (a, true) → (s.parts.zip s.reducible)[i + 1]? = some (b, r) →
+      QuotedEnd a ∨ HeadTerm b :=
+  splitAttrs_not_continued d s h
+
+/-- non-vacuity: `<a b=cd` (the data ends inside an unquoted value): nothing is reducible; `<a b=cd e>`: ` b=cd` is -/
+example : (splitAttrs [0x3C,0x61,0x20,0x62,0x3D,0x63,0x64]).toOption.map (fun s => s.reducible) = some [false, false] := by
+  decide
+example : (splitAttrs [0x3C,0x61,0x20,0x62,0x3D,0x63,0x64,0x20,0x65,0x3E]).toOption.map (fun s => (s.parts, s.reducible))
+    = some ([[0x3C,0x61], [0x20,0x62,0x3D,0x63,0x64], [0x20,0x65], [0x3E]], [false, true, true, false]) := by
+  decide
 
 /-- non-vacuity: `<a b="c d" e>` -/
 example :
